@@ -31,7 +31,19 @@ def _on_alarm(signum, frame):
     raise _Timeout()
 
 
-CASE_TIME_LIMIT = 20.0  # seconds of CPU time (of this process) one case may take before it is called a hang
+CASE_TIME_LIMIT = 10.0  # seconds of CPU time (of this process) one case may take before it is called a hang
+
+
+_PREFIX = {
+    "Graph.topological_sort": "toposort",
+    "Graph.get_longest_path": "longest_path",
+    "Graph.are_dependent": "are_dependent",
+    "Graph.get_node_depth": "node_depth",
+    "Graph.breadth_first": "breadth_first",
+    "Graph.__iter__": "iter",
+    "Graph.depth_first": "depth_first",
+    "Graph.get_sources": "sources",
+}
 
 
 def _preload():
@@ -239,7 +251,7 @@ def describe(case):
     )
 
 
-def check_case(case, V, O=None, C=None):
+def check_case(case, V, O=None, C=None, limit=None):
     """Check every contract of C17 on one concrete graph.
     V(id, msgfn): violation sink; O(id, msgfn): observation sink (not demanded by the statement);
     C: dict routine -> number of calls of the real routine."""
@@ -248,13 +260,14 @@ def check_case(case, V, O=None, C=None):
     if C is None:
         C = {}
     cur = ["build"]
+    limit = limit or CASE_TIME_LIMIT
     _preload()
     old = signal.signal(signal.SIGVTALRM, _on_alarm)
-    signal.setitimer(signal.ITIMER_VIRTUAL, CASE_TIME_LIMIT)
+    signal.setitimer(signal.ITIMER_VIRTUAL, limit)
     try:
         _check_case(case, V, O, C, cur)
     except _Timeout:
-        V(cur[0] + ".did_not_terminate", lambda: "%s: still running after %.0fs of CPU time on %s" % (cur[0], CASE_TIME_LIMIT, describe(case)))
+        V(_PREFIX.get(cur[0], cur[0]) + ".did_not_terminate", lambda: "%s: still running after %.0fs of CPU time on %s" % (cur[0], limit, describe(case)))
     finally:
         signal.setitimer(signal.ITIMER_VIRTUAL, 0)
         signal.signal(signal.SIGVTALRM, old)
@@ -708,12 +721,21 @@ class Sink:
         self.evals = 0
         self.keys = []
         self.samples = []
+        self.hangs = 0
+        self.skipped = 0
 
     def run(self, case, key, nontrivial):
+        if self.hangs >= 3:
+            # a routine that hangs on everything would cost the time limit per case: after three hangs in
+            # this work item the remaining cases are skipped and reported as not evaluated
+            self.skipped += 1
+            return
         rank = (case["n"], len(case_edges(case)), CLS_ID[case["cls"]], str(key))
 
         def put(store):
             def f(vid, msgfn):
+                if vid.endswith(".did_not_terminate"):
+                    self.hangs += 1
                 e = store.get(vid)
                 if e is None:
                     store[vid] = [1, rank, dict(case), msgfn()]
@@ -724,7 +746,7 @@ class Sink:
 
             return f
 
-        check_case(case, put(self.v), put(self.o), self.calls)
+        check_case(case, put(self.v), put(self.o), self.calls, limit=CASE_TIME_LIMIT if self.hangs == 0 else 1.0)
         self.evals += 1
         if nontrivial:
             self.keys.append(key)
@@ -732,7 +754,7 @@ class Sink:
             self.samples.append(describe(case))
 
     def result(self):
-        return {"v": self.v, "o": self.o, "calls": self.calls, "evals": self.evals, "keys": self.keys, "samples": self.samples}
+        return {"v": self.v, "o": self.o, "calls": self.calls, "evals": self.evals, "keys": self.keys, "samples": self.samples, "skipped": self.skipped}
 
 
 def all_weightings(n):
@@ -777,7 +799,7 @@ def task_exhaustive(t):
                 if wmode in ("all", "rotate_all"):
                     rts = allw
                 else:
-                    rts = [rng.choice(allw) for _ in range(2)]
+                    rts = [rng.choice(allw) for _ in range(int(wmode.split(":")[1]) if ":" in wmode else 2)]
                 for rt in rts:
                     c = dict(case)
                     c["runtimes"] = rt
@@ -964,7 +986,7 @@ def plan(tier, seed, max_n=None):
         for cls in ("taskgraph", "jobgraph"):
             for n in range(0, 4):
                 exhaustive(cls, n, ["ctor", "addch"], "all", 40)
-            exhaustive(cls, 4, ["ctor", "addch"], "rotate_all", 20)
+            exhaustive(cls, 4, ["ctor", "addch"], "rotate:10", 60)
         nrand, ncyc = 40, 40
     else:
         for n in range(0, 6):
@@ -999,7 +1021,7 @@ def main():
             "descending / constructor mapping / add_node(node,*children) in reverse order / seeded shuffle); weights: for n<=4 default + every "
             "weighting in {1,2,3}^n on the first build and default + unit + 2 sampled weightings on the other four; for n=5 default + unit + 2 "
             "sampled weightings on each of the 5 builds (sampled, not exhaustive in weights; the thorough tier is). TaskGraph and JobGraph "
-            "(real Task/Job objects): every labelled DAG on n<=4 with every runtime vector in {1,2,3}^n us, built by constructor mapping and by add_task/add_job (both for n<=3, alternating per DAG at n=4). "
+            "(real Task/Job objects): every labelled DAG on n<=3 with every runtime vector in {1,2,3}^n us, built by constructor mapping and by add_task/add_job; n=4 every labelled DAG with 10 sampled runtime vectors, builds alternating per DAG (sampled in runtimes; the thorough tier is exhaustive there). "
             "Cyclic: every digraph with self-loops on <=3 nodes, every loop-free digraph on 4 nodes, rings/back-edges up to 15 nodes, "
             "40 random DAGs (5..40 nodes) plus back edges. Random (sampled): 40 seeded DAGs with 7..40 nodes."
         )
@@ -1030,6 +1052,7 @@ def main():
     nproc = min(16, os.cpu_count() or 1)
     viol, obs = {}, {}
     samples = []
+    skipped = 0
     with multiprocessing.Pool(nproc) as pool:
         for res in pool.imap_unordered(_dispatch, items, chunksize=1):
             R.evaluations += res["evals"]
@@ -1037,6 +1060,7 @@ def main():
             for k, v in res["calls"].items():
                 R.called(k, v)
             samples.extend(res["samples"])
+            skipped += res["skipped"]
             for store, src in ((viol, res["v"]), (obs, res["o"])):
                 for vid, e in src.items():
                     cur = store.get(vid)
@@ -1054,6 +1078,9 @@ def main():
         R.violation(vid, msg, REPLAY_TEMPLATE % {"case": case, "want": vid, "core": core})
         R.violations[vid]["count"] = cnt
     R.extra["observations"] = [{"id": k, "count": v[0], "example": v[3]} for k, v in sorted(obs.items())]
+    if skipped:
+        R.exhaustive = False
+        R.undecided.append("%d cases were not evaluated: skipped after three hangs in their work item" % skipped)
     R.extra["work_items"] = len(items)
     R.finish()
 
